@@ -462,6 +462,8 @@ func buildC07(tier string) *core.Plan {
 				map[string]any{"t": map[string]any{"$output": false, "v": mk}, "s": `$"x-{t.v}"`},
 				map[string]any{"t": map[string]any{"$output": false, "v": mk}, "k": map[string]any{`$"{t.v}-key"`: 1}},
 				map[string]any{"t": map[string]any{"$output": false, "v": mk, "w": "ok"}, "s": `$"{t.w}{t.v}"`},
+				map[string]any{"t": map[string]any{"$output": false, "v": []any{"a", mk}}, "s": `$"x-{t.v}"`},
+				map[string]any{"t": map[string]any{"$output": false, "v": map[string]any{"k": mk}}, "s": `$"x-{t.v}"`},
 			}
 			for _, d := range docs {
 				c.Eval()
